@@ -243,6 +243,8 @@ func runPipeChild(specPath string) {
 	// ---- hook handler
 	res := &PipeResult{Port: port, Stats: map[string]int{}}
 	var finished atomic.Int64
+	written := map[string][]string{} // seed id -> URLs whose WARC write was acknowledged
+	var writtenMu sync.Mutex
 	var openBodies atomic.Int64 // nodes found holding a body after post-processing (must stay 0)
 	var sawInsert atomic.Bool // quiescence is only meaningful once the queue has started handing out rows
 	var stopOnce sync.Once
@@ -285,6 +287,36 @@ func runPipeChild(specPath string) {
 			}
 		}
 		evlog.write(point, fields...)
+		// C02 end to end: at the moment a seed is reported finished, every response the WARC writer
+		// acknowledged for it must be readable from the job's WARC files (sync mode)
+		if it, ok := arg.(*models.Item); ok && !sp.Async {
+			switch point {
+			case "arch.written":
+				writtenMu.Lock()
+				written[it.GetSeed().GetID()] = append(written[it.GetSeed().GetID()], it.GetURL().String())
+				writtenMu.Unlock()
+			case "fin.finished":
+				writtenMu.Lock()
+				urls := append([]string{}, written[it.GetID()]...)
+				writtenMu.Unlock()
+				if len(urls) > 0 {
+					sc := scanWarcDirAll(filepath.Join(c.JobPath, "warcs"))
+					have := map[string]bool{}
+					for _, r := range sc.Recs {
+						if r.Type == "response" || r.Type == "revisit" {
+							have[r.TargetURI] = true
+						}
+					}
+					missing := 0
+					for _, u := range urls {
+						if !have[u] {
+							missing++
+						}
+					}
+					evlog.write("fin.captured", it.GetID(), fmt.Sprint(missing), fmt.Sprint(len(urls)))
+				}
+			}
+		}
 		if it, ok := arg.(*models.Item); ok && (point == "fin.feedback" || point == "fin.finished" || point == "post.done") {
 			it.Traverse(func(n *models.Item) {
 				if n.GetURL() != nil && n.GetURL().GetBody() != nil {
